@@ -421,6 +421,8 @@ type wire struct {
 	sid     string // session cookie value ("" = none)
 	origin  *hdrVal
 	referer *hdrVal
+	mode    int    // how this request arrives (scheme mode); the app may be reachable over both schemes
+	req     otuple // the request's own origin: scheme of this request, host and port of the Host header
 }
 
 func (w *world) do(q *wire) *drive.Resp {
@@ -470,7 +472,7 @@ func (w *world) do(q *wire) *drive.Resp {
 	if q.referer != nil {
 		rq.Hdr = append(rq.Hdr, drive.H{K: "Referer", V: q.referer.raw})
 	}
-	switch cfg.mode {
+	switch q.mode {
 	case smTLS:
 		rq.TLS = true
 	case smProxyHTTPS:
@@ -661,6 +663,7 @@ type step struct {
 	adv    int
 	label  string
 	o, ref *hdrVal // ofExplicit
+	modeOv int     // 0: the case's scheme mode; otherwise scheme mode + 1 for this request only
 }
 
 type histSpec struct {
@@ -715,8 +718,8 @@ func genCfg(r *gen.Rand, backends []string) *hcfg {
 // hostSpellsDefaultPort: the Host header writes out the scheme's default port ("example.com:443" on
 // https). The request origin is unchanged by that (RFC 6454), but a same-origin request is then
 // only counted, not demanded to pass: rejecting it is over-strict, not a breach of the statement.
-func hostSpellsDefaultPort(cfg *hcfg) bool {
-	return strings.HasSuffix(cfg.host, ":"+strconv.Itoa(defPort(cfg.req.scheme)))
+func hostSpellsDefaultPort(host, scheme string) bool {
+	return strings.HasSuffix(host, ":"+strconv.Itoa(defPort(scheme)))
 }
 
 // decoysFor lists KeyLookup strings that name a source other than the explicit extractor's.
@@ -933,15 +936,14 @@ func (rn *runner) pick(sel int, s *step, cl *client) string {
 	return ""
 }
 
-func (rn *runner) originFor(s *step, method string) (o, ref *hdrVal) {
-	cfg := rn.hs.cfg
-	same := &hdrVal{raw: cfg.req.canon(), tuple: cfg.req, tupleOK: true, relation: "same", deco: "canon"}
-	evilT := otuple{cfg.req.scheme, "evil.com", defPort(cfg.req.scheme)}
+func (rn *runner) originFor(s *step, method string, req otuple) (o, ref *hdrVal) {
+	same := &hdrVal{raw: req.canon(), tuple: req, tupleOK: true, relation: "same", deco: "canon"}
+	evilT := otuple{req.scheme, "evil.com", defPort(req.scheme)}
 	switch s.orig {
 	case ofExplicit:
 		return s.o, s.ref
 	case ofNone:
-		if cfg.req.scheme == "https" && !isSafe(method) {
+		if req.scheme == "https" && !isSafe(method) {
 			return same, nil
 		}
 		return nil, nil
@@ -950,7 +952,7 @@ func (rn *runner) originFor(s *step, method string) (o, ref *hdrVal) {
 	case ofEvil:
 		return &hdrVal{raw: evilT.canon(), tuple: evilT, tupleOK: true, relation: "cross", deco: "canon"}, nil
 	case ofRefOK:
-		return nil, &hdrVal{raw: cfg.req.canon() + "/form", tuple: cfg.req, tupleOK: true, relation: "same", deco: "path"}
+		return nil, &hdrVal{raw: req.canon() + "/form", tuple: req, tupleOK: true, relation: "same", deco: "path"}
 	default:
 		return nil, &hdrVal{raw: evilT.canon() + "/form", tuple: evilT, tupleOK: true, relation: "cross", deco: "path"}
 	}
@@ -1049,7 +1051,12 @@ func (rn *runner) step(s *step) {
 			q.ext = "none" // a path parameter cannot be empty; "none" is never issued
 		}
 	}
-	q.origin, q.referer = rn.originFor(s, q.method)
+	q.mode = cfg.mode
+	if s.modeOv != 0 {
+		q.mode = s.modeOv - 1
+	}
+	q.req = hostTuple(schemeOf(q.mode), cfg.host)
+	q.origin, q.referer = rn.originFor(s, q.method, q.req)
 
 	now := vt.Since()
 	wall := time.Now()
@@ -1126,8 +1133,8 @@ func (rn *runner) step(s *step) {
 		sidAfter = sidVal
 	}
 
-	line := fmt.Sprintf("t=%s c%d %s /%s [%s] ext=%q cookie=%q sid=%q origin=%s referer=%s -> %d reached=%v set-cookie=%q expired=%v generated=%v",
-		now.Round(time.Millisecond), s.cl, q.method, q.route, s.label, q.ext, q.ck, q.sid, hv(q.origin), hv(q.referer), resp.Status, reached, ckVal, ckExpired, made)
+	line := fmt.Sprintf("t=%s c%d %s %s /%s [%s] ext=%q cookie=%q sid=%q origin=%s referer=%s -> %d reached=%v set-cookie=%q expired=%v generated=%v",
+		now.Round(time.Millisecond), s.cl, smNames[q.mode], q.method, q.route, s.label, q.ext, q.ck, q.sid, hv(q.origin), hv(q.referer), resp.Status, reached, ckVal, ckExpired, made)
 	if anyFault {
 		line += fmt.Sprintf(" STORAGE-FAULT(lookup=%v set=%v delete=%v)", lookupFault, setFault, delFault)
 	}
@@ -1216,7 +1223,7 @@ func (rn *runner) step(s *step) {
 	cl.prevE, cl.prevC = q.ext, q.ck
 	present := q.ext != "" && !(cfg.extractor == "param" && q.ext == "none")
 	match := cfg.extractor == "cookie" || q.ext == q.ck
-	ov, oclass, gov, ohdr := judgeOrigin(cfg.req.scheme, cfg.req, cfg.trusted, q.origin, q.referer, hostSpellsDefaultPort(cfg))
+	ov, oclass, gov, ohdr := judgeOrigin(q.req.scheme, q.req, cfg.trusted, q.origin, q.referer, hostSpellsDefaultPort(cfg.host, q.req.scheme))
 	sigClass := oclass
 
 	if m.tokens[q.ext] != nil || q.origin != nil || q.referer != nil {
